@@ -24,4 +24,4 @@ def main(tier):
         'complete programs of the AstEnum builder machine with subcircuit blocks at top level, in loops, in sequential '
         'blocks and in macros, with literal / let counts, mixed with explicit prepare_all / measure_all; non-trivial = '
         'distinct programs containing a subcircuit block; plus (dynamic half) programs executed next to their explicit spelling',
-        extra_stage=lambda rep, wd, rng: execprops.explicit_stage(rep, wd, rng, tier))
+        extra_stage=lambda rep, wd, rng: execprops.explicit_stage(rep, wd, rng, tier), variants=('edge',))
